@@ -51,5 +51,6 @@ def run(chk, replay=None):
     C.strings_check(chk, drv, fs, want_identity=False)
     C.trees_check(chk, drv, want_identity=False)
     C.documents_check(chk, want_identity=False, drv=drv)
+    C.tableless_kwargs_check(chk)
     C.histories_check(chk, drv)
     return chk.finish()
